@@ -561,6 +561,10 @@ pub enum Step {
     /// a batch that is filled and dropped without commit
     Abandon { ops: Vec<(usize, Option<usize>)>, buffered: bool },
     Reopen,
+    /// reopen, and do not read anything before the next step (columns /
+    /// keyspaces are resolved lazily: the next write is the first to touch
+    /// them in the new session)
+    ReopenUntouched,
 }
 
 fn step_json(s: &Step) -> Value {
@@ -568,6 +572,7 @@ fn step_json(s: &Step) -> Value {
         Step::Commit { ops, buffered } => json!({"commit": ops.iter().map(|(c, v)| json!([c, v])).collect::<Vec<_>>(), "buffered": buffered}),
         Step::Abandon { ops, buffered } => json!({"abandon": ops.iter().map(|(c, v)| json!([c, v])).collect::<Vec<_>>(), "buffered": buffered}),
         Step::Reopen => json!("reopen"),
+        Step::ReopenUntouched => json!("reopen-untouched"),
     }
 }
 
@@ -581,6 +586,8 @@ fn step_from_json(v: &Value) -> Step {
     };
     if v.as_str() == Some("reopen") {
         Step::Reopen
+    } else if v.as_str() == Some("reopen-untouched") {
+        Step::ReopenUntouched
     } else if let Some(c) = v.get("commit") {
         Step::Commit {
             ops: ops(c),
@@ -678,7 +685,7 @@ impl<D: Backend> Rig<D> {
                 let batch = self.fill(ops, &vec![*buffered; ops.len()]);
                 drop(batch);
             }
-            Step::Reopen => {
+            Step::Reopen | Step::ReopenUntouched => {
                 self.db = None;
                 self.db = Some(D::open_at(&self.path));
                 self.reopens += 1;
@@ -782,7 +789,13 @@ impl<D: Backend> Rig<D> {
 
     fn run(&mut self, steps: &[Step]) -> Result<(), (usize, Mismatch)> {
         for (i, s) in steps.iter().enumerate() {
-            self.apply(s, true).map_err(|m| (i, m))?;
+            // right after an untouched reopen nothing is read before the
+            // commit either
+            let untouched = i > 0 && steps[i - 1] == Step::ReopenUntouched;
+            self.apply(s, !untouched).map_err(|m| (i, m))?;
+            if *s == Step::ReopenUntouched && i + 1 < steps.len() {
+                continue;
+            }
             if self.verify_all {
                 self.verify().map_err(|m| (i, m))?;
             }
@@ -828,7 +841,7 @@ fn ids<D: Backend>(r: &Rig<D>, steps: &[Step]) -> Vec<String> {
                     s.insert(format!("{c}={}", r.uni.cells[*c].id()));
                 }
             }
-            Step::Reopen => {}
+            Step::Reopen | Step::ReopenUntouched => {}
         }
     }
     s.into_iter().collect()
@@ -1021,6 +1034,18 @@ fn histories<D: Backend>(out: &mut Out, thorough: bool, slice: usize, slices: us
                 continue;
             }
             run(out, &mut r, vec![a.clone(), Step::Reopen, b.clone(), Step::Reopen], &mut paths);
+            // the first operation after a reopen through the other write path
+            // as well (column families / keyspaces are resolved lazily)
+            let flip = |s: &Step| match s {
+                Step::Commit { ops, buffered } => {
+                    Step::Commit { ops: ops.clone(), buffered: buffered.iter().map(|b| !b).collect() }
+                }
+                other => other.clone(),
+            };
+            run(out, &mut r, vec![a.clone(), Step::Reopen, flip(b), Step::Reopen], &mut paths);
+            run(out, &mut r, vec![flip(a), Step::Reopen, b.clone(), Step::Reopen], &mut paths);
+            run(out, &mut r, vec![a.clone(), Step::ReopenUntouched, b.clone(), Step::Reopen], &mut paths);
+            run(out, &mut r, vec![a.clone(), Step::ReopenUntouched, flip(b), Step::Reopen], &mut paths);
             if thorough {
                 run(out, &mut r, vec![a.clone(), b.clone(), Step::Reopen], &mut paths);
             }
